@@ -221,8 +221,12 @@ class SrcBuilder:
         for c in self.exec_sites:
             for a in c.args[:2]:
                 tracked |= names_strpos(_peel_code_arg(a)[0])
-        stmts = [n for n in ast.walk(self.root) if isinstance(n, ast.stmt)]
-        calls = [n for n in ast.walk(self.root) if isinstance(n, ast.Call)]
+        # scopes of the slice: the root function itself and the local helpers that contain an exec site
+        scope = list(walk_no_nested(self.root))
+        for name in sorted(self.emit_funcs):
+            scope += list(ast.walk(self.local_defs[name]))
+        stmts = [n for n in scope if isinstance(n, ast.stmt)]
+        calls = [n for n in scope if isinstance(n, ast.Call)]
         changed = True
         while changed:
             before = len(tracked)
@@ -533,11 +537,7 @@ class SrcBuilder:
                 (isinstance(a, Sym) or isinstance(b, Sym)):
             return self.tostr(a) + self.tostr(b)
         if isinstance(op, ast.Mod) and isinstance(a, str):
-            vals = b if isinstance(b, tuple) else (b,)
-            try:
-                return a % tuple(self.tostr(x) if isinstance(x, Sym) else x for x in vals)
-            except (TypeError, ValueError) as e:
-                raise AnalysisError(f"%-formatting outside the domain: {e}")
+            return self.percent(a, b)
         if isinstance(a, conc) and isinstance(b, conc):
             try:
                 import operator as _o
@@ -554,6 +554,37 @@ class SrcBuilder:
             except (TypeError, ZeroDivisionError):
                 pass
         return Sym(('bin', type(op).__name__, keyof(a), keyof(b)))
+
+    def percent(self, fmt, b):
+        """printf-style formatting with symbolic arguments: %r goes through the repr model"""
+        import re
+        if isinstance(b, dict):
+            raise AnalysisError("%-formatting with a mapping is outside the domain")
+        vals = list(b) if isinstance(b, tuple) else [b]
+        out, pos, i = [], 0, 0
+        for mt in re.finditer(r'%(?:[#0\- +]*)(?:\d+)?(?:\.\d+)?([a-zA-Z%])', fmt):
+            out.append(fmt[pos:mt.start()])
+            pos = mt.end()
+            conv = mt.group(1)
+            if conv == '%':
+                out.append('%')
+                continue
+            if i >= len(vals):
+                raise AnalysisError("%-format has more fields than arguments")
+            v = vals[i]
+            i += 1
+            if conv in ('r', 'a'):
+                v = self.do_repr(v)
+                out.append(self.tostr(v))
+            elif isinstance(v, Sym) or conv == 's':
+                out.append(self.tostr(v))
+            else:
+                try:
+                    out.append(mt.group(0) % v)
+                except (TypeError, ValueError) as e:
+                    raise AnalysisError(f"%-formatting outside the domain: {e}")
+        out.append(fmt[pos:])
+        return ''.join(out)
 
     def ev(self, e, st):
         m = getattr(self, 'ev_' + type(e).__name__, None)
